@@ -4,6 +4,7 @@ import (
 	"context"
 	"fmt"
 	"os"
+	"runtime/debug"
 	"time"
 
 	"seata.apache.org/seata-go/pkg/tm"
@@ -29,6 +30,18 @@ func main() {
 	var xid string
 	err := tm.WithGlobalTx(context.Background(), &tm.GtxConfig{Name: "probe", Timeout: 30 * time.Second}, func(ctx context.Context) error {
 		xid = tm.GetXID(ctx)
+		q, a := s.SQL(atlab.Stmt{Kind: kind, Keys: keys, W: 1}, atlab.Style{Literal: lit, InList: true})
+		func() {
+			defer func() {
+				if p := recover(); p != nil {
+					fmt.Printf("PANIC %v\n%s\n", p, debug.Stack())
+				}
+			}()
+			if os.Getenv("RAW") != "" {
+				_, err := lab.DB.ExecContext(ctx, q, a...)
+				fmt.Println("RAW:", err)
+			}
+		}()
 		if err := lab.RunBranch(ctx, s, []atlab.Stmt{{Kind: kind, Keys: keys, W: 1}}, atlab.Style{Literal: lit, InList: true}); err != nil {
 			return err
 		}
